@@ -163,9 +163,10 @@ CLAIMED = {
               'the form percent + concrete modifier prefix + symbolic tail in an exact-size object (per-back-edge '
               'unwinding bounds prove no other modifier loop is taken); dt_strpd on enumerated formats with arbitrary '
               'input bytes in exact-size objects (end pointer inside the input); dt_strfd on enumerated formats with '
-              'arbitrary in-range values and buffers of 1..11 bytes (never writes or reports more than the buffer holds).'),
+              'arbitrary in-range values and buffers of 1..11 bytes (never writes or reports more than the buffer holds); likewise the '
+              'time and date-time parser and formatter drivers (dt_strpt, dt_strft, dt_strpdt, dt_strfdt) on enumerated formats.'),
         note=('formats enumerated (a symbolic format byte re-enters the tokeniser loops); strings <= 4 (quick) / 8 bytes; '
-              'date-time, time and duration drivers, dt_io_write, the flex/bison front end and the needle search are not '
+              'duration driver, dt_io_write, the flex/bison front end and the needle search are not '
               'yet covered; two defects found and fixed'),
         technique='CBMC memory-safety checking of tokeniser, date parser and date formatter on exact-size objects',
         design='3/C10'),
